@@ -18,8 +18,21 @@ from migen import *
 from litex.soc.interconnect import csr_bus
 from vf.core import Case
 
-def c_csr_sram(depth, busw=32, memw=None, read_only=False, init=None, paging=0x800, address=5):
+def c_csr_sram(depth, busw=32, memw=None, read_only=False, init=None, paging=0x800, address=5, via_array=False):
     memw = memw or busw
+    class Periph(Module):
+        """a peripheral with a CSR-mapped memory, as CSRBankArray.scan collects it (get_memories)"""
+        def __init__(self): self.mem = Memory(memw, depth, init=init, name="win")
+        def get_memories(self): return [(read_only, self.mem)]
+    class TopArray(Module):
+        """the same composition built by the REAL CSRBankArray.scan (memory at location `address`, its page register bank at `address`+1)"""
+        def __init__(self):
+            self.bus = csr_bus.Interface(data_width=busw, address_width=14)
+            self.submodules.periph = Periph(); self.mem = self.periph.mem
+            self.submodules.array = csr_bus.CSRBankArray(self, lambda name, mem: (address if mem is not None else address + 1) if name == "periph" else None,
+                                                         data_width=busw, address_width=14, paging=paging)
+            self.sram = self.array.srams[0][3]
+            self.submodules.ic = csr_bus.Interconnect(self.bus, self.array.get_buses())
     class Top(Module):
         def __init__(self):
             self.bus = csr_bus.Interface(data_width=busw, address_width=14)
@@ -31,8 +44,8 @@ def c_csr_sram(depth, busw=32, memw=None, read_only=False, init=None, paging=0x8
                 self.submodules.pbank = csr_bus.CSRBank(self.sram.get_csrs(), address=address + 1, bus=self.b2, paging=paging)
                 slaves.append(self.b2)
             self.submodules.ic = csr_bus.Interconnect(self.bus, slaves)
-    d = mk(Top); bus = d.bus; page = d.sram._page
-    h = HwCheck(f"csr_bus.SRAM({depth}x{memw},bus={busw},ro={read_only},paging={paging:#x},page_reg={'yes' if page is not None else 'no'})", d, [bus.adr, bus.we, bus.re, bus.dat_w])
+    d = mk(TopArray if via_array else Top); bus = d.bus; page = d.sram._page
+    h = HwCheck(f"csr_bus.SRAM({depth}x{memw},bus={busw},ro={read_only},paging={paging:#x},page_reg={'yes' if page is not None else 'no'}{',via CSRBankArray' if via_array else ''})", d, [bus.adr, bus.we, bus.re, bus.dat_w])
     V = h.v
     ap = paging // 4; pb = ap.bit_length() - 1; assert 1 << pb == ap
     csrw = (memw + busw - 1) // busw; wb = csrw.bit_length() - 1; assert 1 << wb == csrw
@@ -107,7 +120,7 @@ def c_csr_sram(depth, busw=32, memw=None, read_only=False, init=None, paging=0x8
     h.cover("cover.read-nonzero", z3.And(b(p_rd), V(bus.dat_r) != K(0, busw)), depth=2 + csrw)
     if not read_only: h.cover("cover.write", hit, depth=csrw)
     if page is not None: h.cover("cover.paged-read", z3.And(b(p_rd), V(bus.dat_r) != K(0, busw), pv != K(0, PBITS)), depth=4 + csrw)
-    h.functions = ["litex.soc.interconnect.csr_bus.SRAM.__init__/get_csrs", "litex.soc.interconnect.csr_bus.Interconnect.__init__", "litex.gen.genlib.misc.chooser"]
+    h.functions = (["litex.soc.interconnect.csr_bus.CSRBankArray.scan/get_buses"] if via_array else []) + ["litex.soc.interconnect.csr_bus.SRAM.__init__/get_csrs", "litex.soc.interconnect.csr_bus.Interconnect.__init__", "litex.gen.genlib.misc.chooser"]
     h.cosim_cycles = 16
     return h
 
@@ -119,7 +132,11 @@ def cases(tier):
           Case("csr.SRAM(16x8,bus=8,paged:2x8,ro,init)", c_csr_sram, 16, 8, None, True, [(37 * i + 1) & 0xff for i in range(16)], 0x20, 9),
           Case("csr.SRAM(8x32,bus=8,wide)", c_csr_sram, 8, 8, 32),
           Case("csr.SRAM(16x12,bus=8,wide,paged:4x8)", c_csr_sram, 16, 8, 12, False, None, 0x20, 3),
-          Case("csr.SRAM(8x5,bus=8,narrow)", c_csr_sram, 8, 8, 5)]
+          Case("csr.SRAM(8x5,bus=8,narrow)", c_csr_sram, 8, 8, 5),
+          Case("CSRBankArray.scan(mem 8x32,paging=0x800)", c_csr_sram, 8, 32, None, False, None, 0x800, 2, True),
+          Case("CSRBankArray.scan(mem 64x8,bus=8,paging=0x400)", c_csr_sram, 64, 8, None, False, None, 0x400, 2, True),
+          Case("CSRBankArray.scan(mem 32x32,paged:4x8,paging=0x20)", c_csr_sram, 32, 32, None, False, None, 0x20, 3, True),
+          Case("CSRBankArray.scan(mem 16x32,ro,paging=0x1000)", c_csr_sram, 16, 32, None, True, list(range(1, 17)), 0x1000, 1, True)]
     if tier == "thorough":
         cs += [Case("csr.SRAM(64x32,bus=32,paged:4x16)", c_csr_sram, 64, 32, None, False, None, 0x40), Case("csr.SRAM(16x64,bus=8,wide)", c_csr_sram, 16, 8, 64)]
     return cs
